@@ -39,7 +39,9 @@ func ScanReader(nshard int, reader func() (io.ReadCloser, error)) Slice {
 			}
 			state.Scanner = bufio.NewScanner(rc)
 			state.Closer = rc
-			if err := skip(state.Scanner, shard); err != nil {
+			// Position the scanner on the shard's first line, which is
+			// line number shard (the scanner starts before line 0).
+			if err := skip(state.Scanner, shard+1); err != nil {
 				return 0, err
 			}
 		}
